@@ -108,10 +108,11 @@ impl Program {
         })
     }
 
-    /// Every task has at most one id in the sync queue at a time (SCHEDULED
-    /// bit), so the queue can only fill up when it is smaller than the task set.
+    /// Queue class for violation signatures. (Several ids of one task can be
+    /// in flight: `Task::run` clears SCHEDULED while an earlier waker is still
+    /// between `start_scheduling` and its push, so even queue 1 / 1 task fills up.)
     fn qclass(&self) -> &'static str {
-        if self.q < self.tasks { "queue-smaller-than-task-set" } else { "queue-never-full" }
+        if self.q <= 3 { "small-queue" } else { "large-queue" }
     }
 }
 
@@ -148,6 +149,8 @@ struct World {
     entered: AtomicU64,
     returned: AtomicU64,
     abort: AtomicBool,
+    /// diagnosis only: 1 wake entered, 2 owner callback entered, 3 owner callback left, 4 wake returned
+    stage: AtomicUsize,
 }
 
 thread_local! {
@@ -166,6 +169,7 @@ impl Wake for OwnerWaker {
 
     fn wake_by_ref(self: &Arc<Self>) {
         let w = &self.0;
+        w.stage.store(2, Relaxed);
         w.owner_calls.fetch_add(1, SeqCst);
         if thread::current().id() == w.home {
             w.owner_calls_home.fetch_add(1, Relaxed);
@@ -175,6 +179,7 @@ impl Wake for OwnerWaker {
         for _ in 0..w.slow {
             thread::yield_now();
         }
+        w.stage.store(3, Relaxed);
     }
 }
 
@@ -248,6 +253,7 @@ fn waker_thread(w: Arc<World>, p: Program, tid: usize, wakers: Vec<Waker>) -> Th
             let before = TL_OWNER.with(|c| c.get());
             st.phases |= 1 << w.phase.load(Relaxed);
             w.entered.fetch_add(1, SeqCst);
+            w.stage.store(1, Relaxed);
             let last = e + 1 == p.epochs && j + 1 == p.wakes;
             match rng.below(4) {
                 // consuming wake of a fresh clone
@@ -256,6 +262,7 @@ fn waker_thread(w: Arc<World>, p: Program, tid: usize, wakers: Vec<Waker>) -> Th
                 1 if last => wakers[t].take().expect("waker").wake(),
                 _ => wakers[t].as_ref().expect("waker").wake_by_ref(),
             }
+            w.stage.store(4, Relaxed);
             w.returned.fetch_add(1, SeqCst);
             let delta = TL_OWNER.with(|c| c.get()) - before;
             st.wakes += 1;
@@ -285,6 +292,7 @@ struct Outcome {
     violations: Vec<(String, String)>,
     inconclusive: Option<String>,
     stuck: bool,
+    blocked: u64,
     wakes: u64,
     coalesced: u64,
     notified: u64,
@@ -299,7 +307,11 @@ struct Outcome {
 
 /// Ticks with yields a waking thread gets to return from `wake()` while the
 /// executor keeps draining.
-const STUCK_TICKS: u64 = if cfg!(miri) { 3_000 } else { 30_000_000 };
+const STUCK_TICKS: u64 = if cfg!(miri) { 400_000 } else { 8_000_000 };
+/// Owner yields without any change before wakers count as blocked.
+// (Miri: crossbeam's push backs off with up to 64 `spin_loop` hints — each a yield in Miri — per spuriously failed
+// weak CAS, failure rate 0.8: a healthy wake() can need hundreds of scheduler turns.)
+const BLOCKED_IDLE: u64 = if cfg!(miri) { 20_000 } else { 200_000 };
 
 fn run_program(p: &Program) -> Outcome {
     let mut out = Outcome::default();
@@ -324,6 +336,7 @@ fn run_program(p: &Program) -> Outcome {
         entered: AtomicU64::new(0),
         returned: AtomicU64::new(0),
         abort: AtomicBool::new(false),
+        stage: AtomicUsize::new(0),
     });
     let exe = Executor::with_config(ExecutorConfig {
         sync_queue_size: p.q,
@@ -381,6 +394,7 @@ fn run_program(p: &Program) -> Outcome {
     let mut last_notify = w.owner_calls.load(SeqCst);
     let mut hot = false;
     let mut hrng = Rng::new(p.salt).fork(0);
+    let mut stable = ((0u64, 0u64, 0u64, 0u64), 0u64);
     'epochs: for e in 0..p.epochs {
         w.go.store(e as u64 + 1, SeqCst);
         let target = ((e + 1) * p.wakers) as u64;
@@ -414,11 +428,59 @@ fn run_program(p: &Program) -> Outcome {
                 } else {
                     // asleep
                     w.phase.store(0, Relaxed);
-                    // a sleeping owner does not tick, but a waker spinning on a
-                    // full queue has notified us before spinning, so we never
-                    // sleep through that
                     thread::yield_now();
                     w.phase.store(2, Relaxed);
+                    // Wakers blocked on a full queue while the owner sleeps: every
+                    // wake() that is in progress has already notified (it does so
+                    // before it waits for room), the owner consumed that
+                    // notification and drained, somebody refilled the queue and
+                    // finished; nothing changes any more.
+                    let snap = (w.entered.load(SeqCst), w.returned.load(SeqCst), w.done.load(SeqCst), n);
+                    if snap.0 > snap.1 && snap == stable.0 {
+                        stable.1 += 1;
+                    } else {
+                        stable = (snap, 0);
+                    }
+                    if stable.1 >= BLOCKED_IDLE {
+                        stable.1 = 0;
+                        let stage = w.stage.load(Relaxed);
+                        let oc = w.owner_calls.load(SeqCst);
+                        // confirm: one unprompted drain lets them return
+                        let before = w.returned.load(SeqCst);
+                        hot = tick(&exe);
+                        let mut k = 0;
+                        while w.returned.load(SeqCst) == before && k < BLOCKED_IDLE {
+                            thread::yield_now();
+                            k += 1;
+                        }
+                        let freed = w.returned.load(SeqCst) - before;
+                        let msg = format!(
+                            "[last stage {stage}, owner_calls {} last_seen {last_notify}] {} wake() call(s) in progress, the owner asleep with no notification outstanding and no thread \
+                             outside wake(): nothing changed for {BLOCKED_IDLE} owner yields; one unprompted tick (drain) let \
+                             {freed} of them return. Queue size {}, {} tasks: Remote::schedule notifies before waiting for \
+                             room, the owner drained, another waker took the slot, and nobody notifies again",
+                            oc,
+                            snap.0 - snap.1,
+                            p.q,
+                            p.tasks
+                        );
+                        out.blocked += 1;
+                        if cfg!(miri) {
+                            if freed > 0 && !out.violations.iter().any(|(s, _)| s.contains("wakers-blocked")) {
+                                out.violations.push((
+                                    format!("C03/executor/wakers-blocked-owner-asleep-un-notified/{}", p.qclass()),
+                                    msg,
+                                ));
+                            }
+                        } else if out.inconclusive.is_none() {
+                            // an OS thread may simply not have been scheduled: not a verdict
+                            out.inconclusive = Some(format!(
+                                "native: wakers looked blocked on a full queue with the owner asleep (q={}, recovered by a forced drain: {})",
+                                p.q,
+                                freed > 0
+                            ));
+                        }
+                    }
                 }
             } else {
                 hot = tick(&exe);
@@ -460,11 +522,11 @@ fn run_program(p: &Program) -> Outcome {
                 }
                 let recovered = conserved(&w);
                 out.violations.push((
-                    format!(
-                        "C03/executor/owner-not-notified-after-push/{}/{}",
-                        p.qclass(),
-                        if recovered { "id-queued-owner-asleep" } else { "id-lost" }
-                    ),
+                    if recovered {
+                        format!("C03/executor/owner-not-notified-after-push/{}/id-queued-owner-asleep", p.qclass())
+                    } else {
+                        format!("C03/executor/wake-lost/notify/{}", p.qclass())
+                    },
                     format!(
                         "all {} waker threads returned from wake(); the owner ticked after every notification it got \
                          ({} in total) and is now asleep with no notification outstanding, yet {:?} still has posted > seen. \
@@ -516,6 +578,8 @@ fn run_program(p: &Program) -> Outcome {
         }
         out.max_final_ticks = out.max_final_ticks.max(final_ticks);
     }
+    // threads waiting for an epoch that will not be released any more
+    w.abort.store(true, SeqCst);
     if out.stuck {
         // threads may still be inside wake(): nothing can be joined or freed.
         std::mem::forget(handles);
@@ -607,7 +671,7 @@ fn evaluate(p: &Program, rep: &mut Report, leg: &str) -> bool {
                 panics::Origin::Repo(l) => rep.violation(
                     &format!("C03/executor/{}", info.sig()),
                     &format!("panic inside compio at {l}: {}", info.message),
-                    json!({"program": p.to_json(), "reps": 300}),
+                    json!({"program": p.to_json(), "reps": if cfg!(miri) { 200 } else { 3000 }}),
                 ),
                 o => rep.inconclusive(&format!("harness panic {o:?}: {}", info.message)),
             }
@@ -621,6 +685,7 @@ fn evaluate(p: &Program, rep: &mut Report, leg: &str) -> bool {
     rep.count("task_polls", o.polls as i64);
     rep.count("spurious_polls", o.spurious as i64);
     rep.count("executor_ticks", o.ticks as i64);
+    rep.count("wakers_blocked_on_full_queue_owner_asleep", o.blocked as i64);
     rep.max("max_ticks_needed_at_quiescence", o.max_final_ticks as i64);
     rep.floor("saw-coalesced-wake", o.coalesced > 0);
     rep.floor("saw-wake-waiting-across-a-tick(small-queue)", o.waited > 0);
@@ -653,7 +718,7 @@ fn evaluate(p: &Program, rep: &mut Report, leg: &str) -> bool {
         rep.inconclusive(r);
     }
     for (sig, what) in &o.violations {
-        rep.violation(sig, what, json!({"program": p.to_json(), "reps": 300}));
+        rep.violation(sig, what, json!({"program": p.to_json(), "reps": if cfg!(miri) { 200 } else { 3000 }}));
     }
     if o.stuck {
         // threads are still inside compio; the process cannot continue sanely
